@@ -89,7 +89,7 @@ def ml4(model):
                    'list), and both filters of the pass keep LanguageTokens', floor=3)
     f = model.func('parser.Parser.remove_pure_action_lines')
     comps = [n for n in iter_scope(f.node) if isinstance(n, ast.ListComp)
-             and any('LanguageToken' in unparse(c) for g in n.generators for c in g.ifs)]
+             and any('LanguageToken' in T.alias_text(f.node, c) for g in n.generators for c in g.ifs)]
     kept = None
     for c in comps:
         p = c._parent
@@ -115,7 +115,7 @@ def ml4(model):
         isinstance(c, ast.BoolOp) or 'type(t)' in unparse(c) for g in n.generators for c in g.ifs)
         and n not in comps]
     for c in filt:
-        if 'LanguageToken' in unparse(c):
+        if 'LanguageToken' in T.alias_text(f.node, c):
             r.ok(c, 'filter keeps LanguageTokens', sample=False)
         else:
             r.fail(c, 'a filter of the line-removal pass drops LanguageTokens (text is empty)')
@@ -262,7 +262,7 @@ def th3(model):
         v = n.value
         if isinstance(v, ast.Call) and getattr(v.func, 'id', '') == 'abs':
             sub = v.args[0]
-            idx = unparse(sub.slice) if isinstance(sub, ast.Subscript) else ''
+            idx = T.reach_text(n._fn, sub.slice) if isinstance(sub, ast.Subscript) else ''
             if 'max(' in idx and '- 1' in idx:
                 r.ok(n, 'end = map entry of the last flagged character (%s)' % idx, nontrivial=True)
             else:
@@ -376,7 +376,7 @@ def uk5(model):
         r.fail(g.node, 'get_unknowns filters / rewrites the recorded list: %s'
                % (unparse(rets[0])[:60] if rets else '?'),
                witness='a name used before its later \\newcommand')
-    f = model.func('tex2txt.tex2txt')
+    f = model.inl().func('tex2txt.tex2txt')
     opar = f.params[1]
     for n in iter_scope(f.node):
         if isinstance(n, ast.If) and unparse(n.test) == '%s.unkn' % opar:
